@@ -137,3 +137,17 @@ func (c *Case) Clone() *Case {
 	}
 	return &out
 }
+
+// reencode converts a value that went through a JSON round trip (map/slice of
+// interface{}) back into a typed value.
+func reencode(in any, out any) {
+	b, err := json.Marshal(in)
+	if err != nil {
+		return
+	}
+	json.Unmarshal(b, out) //nolint:errcheck
+}
+
+func jsonUnmarshalB64(s string, out *[]byte) error {
+	return json.Unmarshal([]byte(`"`+s+`"`), out)
+}
